@@ -17,6 +17,8 @@ def run(tier, seed):
                  "closed A x non-indented B over the line vocabulary")
     from .c17 import add_cons
     add_cons(rep, "C07")
+    from .c17 import add_refdef
+    add_refdef(rep, "C07")
     from .c17 import add_list
     add_list(rep, "C07")
     rep.explanation = ("Mixed. Deductive: failing or silent leaf rules leave line/level/tokens untouched, successful ones restore level and parentType (frame part of the statement's "
